@@ -101,7 +101,9 @@ def gen_keys(rng, n, debug_bias=0.15):
     while len(keys) < n:
         r = rng.random()
         if keys and r < 0.35:
-            base = dict(rng.choice(keys))
+            bi = rng.randrange(len(keys))
+            base = dict(keys[bi])
+            base['variant_of'] = bi
             v = rng.random() * 1.15
             if v < 0.2 and base.get('ns'):
                 base['ns_form'] = rng.choice(['reversed', 'ordered'])
@@ -110,7 +112,7 @@ def gen_keys(rng, n, debug_bias=0.15):
             elif v < 0.45:
                 base['flags_form'] = 'bool' if base.get('flags_form') != 'bool' else 'int'
             elif v < 0.55:
-                base['flags'] = 0 if base.get('flags') else 1
+                base['flags'] = (0 if base.get('flags') else 1) if rng.random() < 0.7 else rng.choice([2, 3, -1, -2])
                 base['flags_form'] = 'int'
             elif v < 0.65:
                 base['ns'] = {} if base.get('ns') is None else None
@@ -152,6 +154,21 @@ _NEAR = [('2n+1', '2n+2'), ('odd', 'even'), ('(2)', '(3)'), ('n+2', 'n+3'), ('-n
 def near_miss(rng, pattern):
     """A pattern that differs from ``pattern`` in one token (one number, one name, one operator)."""
 
+    if rng.random() < 0.35:
+        # one number changed by one (nth coefficients and offsets; -1 / -2 are the classic hash twins)
+        import re
+        ms = [m for m in re.finditer(r'(?<![\w"\'#.\[=\\])(-?\d+|-)(?=n)|(?<=n)\s*([+-])\s*(\d+)|\((\d+)(?=[\s)])', pattern)]
+        if ms:
+            m = ms[rng.randrange(len(ms))]
+            d = rng.choice([1, -1])
+            if m.group(1) is not None:
+                v = -1 if m.group(1) == '-' else int(m.group(1))
+                return pattern[:m.start(1)] + str(v + (d if v + d != 0 else 2 * d)) + pattern[m.end(1):]
+            if m.group(3) is not None:
+                v = int(m.group(2) + m.group(3)) + d
+                return pattern[:m.start()] + ('%+d' % v) + pattern[m.end():]
+            v = max(0, int(m.group(4)) + d)
+            return pattern[:m.start(4)] + str(v) + pattern[m.end(4):]
     cands = [(a, b) for a, b in _NEAR if a in pattern] + [(b, a) for a, b in _NEAR if b in pattern]
     if not cands:
         return None
@@ -285,9 +302,36 @@ class Machine:
                 self.violate('5-immutable', detail=f'object of key {k} changed (fingerprint or hash)', key=k, at=where)
 
     # -- operations -------------------------------------------------------------
-    def _compile(self, k):
+    def _compile(self, k, scribble=None):
         key = self.keys[k]
-        return self.sv.compile(key['pattern'], **key_call_args(key))
+        kw = key_call_args(key)
+        o = self.sv.compile(key['pattern'], **kw)
+        if scribble is not None:
+            # the caller goes on using (and changing) the maps it passed in: a compiled selector is a value and must
+            # not notice
+            with sched.untraced():
+                before = fp.h(fp.fp_value(o), 12)
+                done = 0
+                for name in ('namespaces', 'custom'):
+                    m = kw.get(name)
+                    if m is None:
+                        continue
+                    names = list(m)
+                    if scribble % 3 == 0 and names:
+                        m[names[scribble % len(names)]] = 'urn:x-scribbled' if name == 'namespaces' else 'b.scribbled'
+                    elif scribble % 3 == 1 and names:
+                        del m[names[scribble % len(names)]]
+                    else:
+                        m['zz' if name == 'namespaces' else ':--zz'] = 'urn:x-added' if name == 'namespaces' else 'i'
+                    done += 1
+                if done:
+                    self.probes['caller_changed_its_maps_after_compile'] += 1
+                    after = fp.h(fp.fp_value(o), 12)
+                    if after != before:
+                        self.violate('5-immutable', key=k, pattern=key['pattern'],
+                                     detail='the compiled selector changed when the caller changed the map it had passed '
+                                            'to compile()', scribble=scribble)
+        return o
 
     def op_compile(self, op, faulted=False):
         k = op['key']
@@ -304,7 +348,7 @@ class Machine:
                 sys.setrecursionlimit(_depth() + lim)
             try:
                 with sched.traced():
-                    o = self._compile(k)
+                    o = self._compile(k, op.get('scribble'))
             finally:
                 if old_limit is not None:
                     sys.setrecursionlimit(old_limit)
@@ -660,6 +704,17 @@ class Machine:
         if n >= 2:
             for a, b in rng_pairs:
                 self._eq_pair(self.objs[a % n], self.objs[b % n])
+            # a key derived from another one by a single change is compared with the key it was derived from
+            first = {}
+            for r in self.objs:
+                first.setdefault(r[0], r)
+            done = 0
+            for k, r in sorted(first.items()):
+                b = self.keys[k].get('variant_of')
+                if b is not None and b in first and done < 12 and not self.violations:
+                    self._eq_pair(r, first[b])
+                    self.probes['variant_compared_with_its_base'] += 1
+                    done += 1
         # nothing wrong left behind: every key compiles to the reference once more, without purging
         for k in sorted({r[0] for r in self.objs}):
             try:
@@ -686,6 +741,8 @@ def gen_history(rng, nkeys, length, mode):
         r = rng.random()
         if r < 0.46:
             ops_.append({'op': 'compile', 'key': rng.randrange(nkeys)})
+            if rng.random() < 0.25:
+                ops_[-1]['scribble'] = rng.randrange(12)
         elif r < 0.54:
             ops_.append({'op': 'purge'})
         elif r < 0.60:
@@ -1148,7 +1205,7 @@ def plan(tier):
                  'nruns': 160 if tier != 'thorough' else 3000})
     # systematic single-fault sweep of one compile (exception at every step, failing stdout at every write): the
     # thorough tier covers every step of the 14 catalogue compiles, the quick tier every ~6th
-    cfgs.append({'name': 'faultsweep-k3', 'mode': 'faultsweep', 'bound': 3, 'chunk': 7,
+    cfgs.append({'name': 'faultsweep-k3', 'mode': 'faultsweep', 'bound': 3, 'chunk': 7, 'priority': True, 'det_runs': 2,
                  'nruns': 14 * 6 if tier != 'thorough' else 14 * 62})
     return {'budget_s': budget, 'configs': cfgs, 'minimise_budget': 500}
 
